@@ -58,6 +58,43 @@ class Source:
         a = self._unique(text, fn_region.start, fn_region.end)
         return Region(self, a, a + len(text))
 
+    def call_arg(self, fn_region, callee, index, strip_closure_head=True):
+        """Region of the index-th argument of the unique call `callee(` inside fn_region; for a closure argument
+        `|x| EXPR` the region of EXPR."""
+        a = self._unique(callee + "(", fn_region.start, fn_region.end) + len(callee) + 1
+        depth, start, k, i = 0, a, 0, a
+        t = self.text
+        while i < fn_region.end:
+            c = t[i]
+            if c in "([{":
+                depth += 1
+            elif c in ")]}":
+                if depth == 0:
+                    break
+                depth -= 1
+            elif c == "|" and depth == 0:
+                # closure parameter list: skip to the closing bar
+                j = t.find("|", i + 1)
+                i = j
+            elif c == "," and depth == 0:
+                if k == index:
+                    break
+                k += 1
+                start = i + 1
+            i += 1
+        if k != index:
+            raise LostAnchor("call %s( in %s has no argument %d" % (callee, self.rel, index))
+        s, e = start, i
+        while t[s] in " \t\n":
+            s += 1
+        while t[e - 1] in " \t\n":
+            e -= 1
+        if strip_closure_head and t[s] == "|":
+            s = t.find("|", s + 1) + 1
+            while t[s] in " \t\n":
+                s += 1
+        return Region(self, s, e)
+
     def between(self, fn_region, after, last):
         """Statement slice: everything after the statement text `after` up to the end of the statement `last`."""
         a = self._unique(after, fn_region.start, fn_region.end) + len(after)
